@@ -1,6 +1,8 @@
 import Got.Drv.Common
 import Got.Model.Codec
 import Got.Spec.Codec
+import Got.Model.MiniGoBytes
+import Got.Generated.AstIox
 /-
 drv_codec c11 : script lines
     seq | <t>:<payload> ; <t>:<payload> ; ...
@@ -20,6 +22,14 @@ drv_codec c12 : script lines
   op = bool byte i16 i32 i64 v7 bytes str raw<n>;  `@k` = the call is made on a fresh stream positioned at k
   output:  <out> p=<pos> l=<len> a=<0|1> ; ... | alias=-
   out = ok:<value> | err:<Enum> | panic ; a=1 iff the ghost allocation exceeds 2*(remaining input) + 4096
+
+drv_codec ast11 / ast12 : the SAME script lines and the SAME output text as c11 / c12, but every call is made by
+  interpreting (Got/Model/MiniGoBytes.lean, fuel 1000) the terms that tools/srcfacts regenerated from /repo's source for
+  this run (Got/Generated/AstIox.lean): validates translator + interpreter semantics against the real code on the very
+  cases of the correspondence.  Extra outcomes that the hand-written model cannot have: `stuck` (out of fuel / ill-typed
+  term), `bytes=panic`, `bytes=write-error-<Enum>`, `ok:oversize<n>` (as the c12 harness prints).
+  `range32` and `giant` lines are answered by the c11 functions (65536 interpreted round trips per line / records of
+  2^28 bytes are far too slow for the interpreter).
 
 drv_codec spec : script lines `leb <nat>` / `le <w> <nat>`  → hex of the specification encoders (used by tests only)
 -/
@@ -265,6 +275,207 @@ def stepC12 (_ : Unit) (line : String) : Unit × String :=
       | some steps => ((), " ; ".intercalate (runC12 buf 0 steps) ++ " | alias=-")
   | _ => ((), "bad-op")
 
+/-! ## translator tie: the same protocols answered by the MiniGoBytes interpreter on the generated terms -/
+namespace Ast
+
+abbrev BVal := Got.Model.MiniGoBytes.Val
+abbrev BErr := Got.Model.MiniGoBytes.Err
+abbrev BOut := Got.Model.MiniGoBytes.Out
+abbrev BSt := Got.Model.MiniGoBytes.St
+
+/-- one unit per statement at one nesting level; the longest path (ReadBytes → Read7BitEncodedInt, 5 loop rounds) needs
+    well under 100 -/
+def astFuel : Nat := 1000
+
+def call (name : String) (args : List BVal) (st : BSt) : Option BOut :=
+  Got.Model.MiniGoBytes.run Got.Generated.AstIox.table name astFuel args st
+
+def errOf : BErr → Err
+  | .NotEnoughData => .NotEnoughData
+  | .Bad7BitInt => .Bad7BitInt
+  | .NegativeSize => .NegativeSize
+  | .InvalidArgument => .InvalidArgument
+
+/-- the writer method (as the harness calls it) and its argument for a typed value -/
+def writeCall : Val → String × List BVal
+  | .bool b => ("OctetsWriter.WriteBool", [.bool b])
+  | .byte x => ("OctetsWriter.WriteByte", [.bv 8 false x])
+  | .i16 d => ("OctetsWriter.WriteInt16", [.bv 16 true d])
+  | .i32 d => ("OctetsWriter.WriteInt32", [.bv 32 true d])
+  | .i64 d => ("OctetsWriter.WriteInt64", [.bv 64 true d])
+  | .v7 d => ("OctetsWriter.Write7BitEncodedInt", [.bv 32 true d])
+  | .bytes l => ("OctetsWriter.WriteBytes", [.bytes l])
+  | .str l => ("OctetsWriter.WriteString", [.bytes l])
+  | .raw l => ("OctetsStream.Write", [.bytes l])
+
+/-- the reader method and its argument for a read call (`raw n`: a zero-filled buffer of n bytes) -/
+def readCall : Op → String × List BVal
+  | .bool => ("OctetsReader.ReadBool", [])
+  | .byte => ("OctetsReader.ReadByte", [])
+  | .i16 => ("OctetsReader.ReadInt16", [])
+  | .i32 => ("OctetsReader.ReadInt32", [])
+  | .i64 => ("OctetsReader.ReadInt64", [])
+  | .v7 => ("OctetsReader.Read7BitEncodedInt", [])
+  | .bytes => ("OctetsReader.ReadBytes", [])
+  | .str => ("OctetsReader.ReadString", [])
+  | .raw n => ("OctetsStream.Read", [.bytes (List.replicate n 0)])
+
+/-- the interpreter's result value of a read call as the model's typed value (`none` = not of the method's result type) -/
+def fromVal : Op → BVal → Option Val
+  | .bool, .bool b => some (.bool b)
+  | .byte, .bv w sg x => if w = 8 ∧ sg = false then some (.byte (x.setWidth 8)) else none
+  | .i16, .bv w sg x => if w = 16 ∧ sg = true then some (.i16 (x.setWidth 16)) else none
+  | .i32, .bv w sg x => if w = 32 ∧ sg = true then some (.i32 (x.setWidth 32)) else none
+  | .i64, .bv w sg x => if w = 64 ∧ sg = true then some (.i64 (x.setWidth 64)) else none
+  | .v7, .bv w sg x => if w = 32 ∧ sg = true then some (.v7 (x.setWidth 32)) else none
+  | .bytes, .bytes l => some (.bytes l)
+  | .str, .bytes l => some (.str l)
+  | _, _ => none
+
+/-- outcome of one interpreted call -/
+inductive AOut where
+  | ok (v : Val)
+  | err (e : Err)
+  | panic
+  | stuck
+
+/-- one read call on the stream object `st`: outcome and the stream afterwards (unchanged on panic / stuck).
+    `raw n`: value = the first `count` bytes of the caller's buffer after the call, as `read1 … (.raw n)` -/
+def astRead (st : BSt) (o : Op) : AOut × BSt :=
+  let na := readCall o
+  match call na.1 na.2 st with
+  | none => (.stuck, st)
+  | some .panic => (.panic, st)
+  | some (.ret vs outs st') =>
+    match vs with
+    | [_, .err (some e)] => (.err (errOf e), st')
+    | [v, .err none] =>
+      match o with
+      | .raw _ =>
+        match v, outs with
+        | .int cnt, [some filled] => (.ok (.raw (filled.take cnt.toNat)), st')
+        | _, _ => (.stuck, st')
+      | _ =>
+        match fromVal o v with
+        | some x => (.ok x, st')
+        | none => (.stuck, st')
+    | _ => (.stuck, st')
+
+/-- `Position()` / `Len()` of the stream through the interpreter -/
+def obsInt (name : String) (st : BSt) : String :=
+  match call name [] st with
+  | some (.ret [.int k] _ _) => toString k
+  | some .panic => "panic"
+  | _ => "stuck"
+
+/-- all writes in order on one stream object -/
+def astWrites : BSt → List Val → Except String BSt
+  | st, [] => .ok st
+  | st, v :: vs =>
+    let na := writeCall v
+    match call na.1 na.2 st with
+    | some (.ret [.err none] _ st') => astWrites st' vs
+    | some (.ret [.err (some e)] _ _) => .error ("write-error-" ++ showErr (errOf e))
+    | some (.ret _ _ _) => .error "stuck"
+    | some .panic => .error "panic"
+    | none => .error "stuck"
+
+/-- the read calls in order on one stream object: text of each item `<t>:<value>@<Position()>`, final stream -/
+def astReads : BSt → List Op → List String × BSt
+  | st, [] => ([], st)
+  | st, o :: os =>
+    let r := astRead st o
+    let item := tagOf o ++ ":" ++ (match r.1 with
+      | .ok x => showVal x
+      | .err e => "err-" ++ showErr e
+      | .panic => "panic"
+      | .stuck => "stuck") ++ "@" ++ obsInt "OctetsStream.Position" r.2
+    let rest := astReads r.2 os
+    (item :: rest.1, rest.2)
+
+/-- ast11, one `seq` line (format of `renderC11`) -/
+def renderAst11 (vals : List Val) : String :=
+  match astWrites ⟨[], 0, 0⟩ vals with
+  | .error what => "bytes=" ++ what
+  | .ok st =>
+    let wire := match call "OctetsStream.Bytes" [] st with
+      | some (.ret [.bytes l] _ _) => "bytes=" ++ hexOf l
+      | some .panic => "bytes=panic"
+      | _ => "bytes=stuck"
+    let rs := astReads st (vals.map Val.op)
+    joinSp ([wire, "|"] ++ rs.1 ++
+      ["|", "len=" ++ obsInt "OctetsStream.Len" rs.2, "pos=" ++ obsInt "OctetsStream.Position" rs.2, "|", "alias=ok"])
+
+def renderAstObs (vals : List Val) : String :=
+  let r := renderAst11 vals
+  if r.endsWith " | alias=ok" then (r.dropEnd 11).toString else r
+
+def renderAstConc (rest : String) : String :=
+  let bodies := (rest.splitOn "||").map (fun b => (b.splitOn ";").map (fun s => s.trimAscii.toString) |>.filter (· ≠ ""))
+    |>.filter (fun b => !b.isEmpty)
+  match parseAll? (fun b => parseAll? parseVal? b) bodies with
+  | none => "bad-op"
+  | some vss => " || ".intercalate (vss.map renderAstObs ++ ["conc=ok"])
+
+/-- one interpreted call of ast12 on the stream object `st` (alloc counted from 0): text and the stream afterwards -/
+def showAst12 (st : BSt) (o : Op) : String × BSt :=
+  let st0 : BSt := { st with alloc := 0 }
+  let r := astRead st0 o
+  let out := match r.1 with
+    | .ok (.raw l) => s!"ok:{l.length}:" ++ hexOf l
+    | .ok (.bytes l) => if l.length > st0.buffer.length then s!"ok:oversize{l.length}" else "ok:" ++ hexOf l
+    | .ok (.str l) => if l.length > st0.buffer.length then s!"ok:oversize{l.length}" else "ok:" ++ hexOf l
+    | .ok v => "ok:" ++ showVal v
+    | .err e => "err:" ++ showErr e
+    | .panic => "panic"
+    | .stuck => "stuck"
+  let remaining := st0.buffer.length - st0.position.toNat
+  let a := if r.2.alloc > 2 * remaining + 4096 then "1" else "0"
+  (out ++ " p=" ++ obsInt "OctetsStream.Position" r.2 ++ " l=" ++ obsInt "OctetsStream.Len" r.2 ++ " a=" ++ a, r.2)
+
+/-- `@k` = a fresh stream object over the input, positioned at k; otherwise the object left by the previous call -/
+def runAst12 (buf : List Byte) : BSt → List (Option Nat × Op) → List String
+  | _, [] => []
+  | st, (k, o) :: rest =>
+    let st0 : BSt := match k with
+      | some k => ⟨buf, (k : Int), 0⟩
+      | none => st
+    let r := showAst12 st0 o
+    r.1 :: runAst12 buf r.2 rest
+
+end Ast
+
+def stepAst11 (_ : Unit) (line : String) : Unit × String :=
+  if line.trimAscii.isEmpty then ((), "") else
+  if line.startsWith "conc " then
+    match line.splitOn " | " with
+    | _ :: rest => ((), Ast.renderAstConc (" | ".intercalate rest))
+    | [] => ((), "bad-op")
+  -- 65536 interpreted round trips per `range32` line and records of ≥ 2^28 bytes are too slow for the interpreter:
+  -- these two line kinds are answered by the hand-written model's functions (exactly what mode c11 prints)
+  else if line.startsWith "giant " ∨ line.startsWith "range32 " then stepC11 () line
+  else
+  match line.splitOn "|" with
+  | [h, body] =>
+    if h.trimAscii.toString ≠ "seq" then ((), "bad-op") else
+    let toks := (body.splitOn ";").map (fun s => s.trimAscii.toString) |>.filter (· ≠ "")
+    match parseAll? parseVal? toks with
+    | none => ((), "bad-op")
+    | some vals => ((), Ast.renderAst11 vals)
+  | _ => ((), "bad-op")
+
+def stepAst12 (_ : Unit) (line : String) : Unit × String :=
+  if line.trimAscii.isEmpty then ((), "") else
+  match line.splitOn " | " with
+  | [h, body] =>
+    match parseBytes? h.trimAscii.toString with
+    | none => ((), "bad-op")
+    | some buf =>
+      match parseAll? (fun (s : String) => parseStep? (words s)) (body.splitOn " ; ") with
+      | none => ((), "bad-op")
+      | some steps => ((), " ; ".intercalate (Ast.runAst12 buf ⟨buf, 0, 0⟩ steps) ++ " | alias=-")
+  | _ => ((), "bad-op")
+
 def stepSpec (_ : Unit) (line : String) : Unit × String :=
   match words line with
   | ["leb", n] => match parseNat? n with
@@ -280,7 +491,9 @@ def main (args : List String) : IO Unit := do
   match args with
   | ["c11"] => lineLoop (← IO.getStdin) (← IO.getStdout) stepC11 ()
   | ["c12"] => lineLoop (← IO.getStdin) (← IO.getStdout) stepC12 ()
+  | ["ast11"] => lineLoop (← IO.getStdin) (← IO.getStdout) stepAst11 ()
+  | ["ast12"] => lineLoop (← IO.getStdin) (← IO.getStdout) stepAst12 ()
   | ["spec"] => lineLoop (← IO.getStdin) (← IO.getStdout) stepSpec ()
-  | _ => IO.eprintln "usage: drv_codec c11|c12|spec < script"
+  | _ => IO.eprintln "usage: drv_codec c11|c12|ast11|ast12|spec < script"
 
 end Got.Drv.Codec
